@@ -14,7 +14,7 @@ import (
 	"verifgen/internal/sample"
 )
 
-func exact(s []byte) []byte { // a copy with cap = len
+func exact07(s []byte) []byte { // a copy with cap = len
 	c := make([]byte, len(s))
 	copy(c, s)
 	return c[:len(s):len(s)]
@@ -25,7 +25,7 @@ func TestExt07AgainstNativeGo(t *testing.T) {
 		t.Skip("coqc not found")
 	}
 	body, err := Translate(".", TransSpec{Dir: "internal/sample",
-		Funcs:    []string{"Fill", "Pad", "Upper7", "EscStr", "EscBytes", "Scratch", "Two", "Enc", "Dec", "DecB", "Count7", "U16", "U16d", "AppRune", "Num7", "Zero7", "CountBytes7"},
+		Funcs:    []string{"Fill7", "Pad", "Upper7", "EscStr", "EscBytes", "Scratch", "Two", "Enc", "Dec", "DecB", "Count7", "U16", "U16d", "AppRune", "Num7", "Zero7", "CountBytes7"},
 		Identity: []string{"AsString"},
 		Std: []string{"strconv.AppendUint", "unicode/utf8.EncodeRune", "unicode/utf8.DecodeRuneInString", "unicode/utf8.DecodeRune",
 			"unicode/utf8.RuneCountInString", "unicode/utf8.AppendRune", "unicode/utf16.EncodeRune", "unicode/utf16.DecodeRune"},
@@ -41,14 +41,14 @@ func TestExt07AgainstNativeGo(t *testing.T) {
 	for _, b0 := range bufs {
 		for _, n := range []int{-1, 0, 1, 2, 3, 5, 6, 11} {
 			b0, n := b0, n
-			add(fmt.Sprintf("g_Fill 99 %s 42 %s", bl(b0), zs(n)), func() string {
-				d := exact(b0)
+			add(fmt.Sprintf("g_Fill7 99 %s 42 %s", bl(b0), zs(n)), func() string {
+				d := exact07(b0)
 				defer func() { _ = d }()
-				k := sample.Fill(d, 42, n)
+				k := sample.Fill7(d, 42, n)
 				return "(" + bl(d) + ", " + zs(k) + ")"
 			})
 			add(fmt.Sprintf("g_Two 99 %s %s", bl(b0), zs(n)), func() string {
-				d := exact(b0)
+				d := exact07(b0)
 				k := sample.Two(d, n)
 				return "(" + bl(d) + ", " + zs(k) + ")"
 			})
@@ -57,15 +57,15 @@ func TestExt07AgainstNativeGo(t *testing.T) {
 			for _, base := range []int{2, 8, 10, 16, 36, 1, 37, 0, -3} {
 				b0, v, base := b0, v, base
 				add(fmt.Sprintf("g_Pad %s %d %s", bl(b0), v, zs(base)), func() string {
-					d := exact(b0)
+					d := exact07(b0)
 					sample.Pad(d, v, base)
 					return bl(d)
 				})
-				add(fmt.Sprintf("g_Num7 %s %d %s", bl(b0), v, zs(base)), func() string { return bl(sample.Num7(exact(b0), v, base)) })
+				add(fmt.Sprintf("g_Num7 %s %d %s", bl(b0), v, zs(base)), func() string { return bl(sample.Num7(exact07(b0), v, base)) })
 			}
 			b0, v := b0, v
 			add(fmt.Sprintf("g_Scratch %s %d", bl(b0), v), func() string {
-				d := exact(b0)
+				d := exact07(b0)
 				n, c := sample.Scratch(d, v)
 				return "(" + bl(d) + ", (" + zs(n) + ", " + fmt.Sprint(c) + "))"
 			})
@@ -74,7 +74,7 @@ func TestExt07AgainstNativeGo(t *testing.T) {
 	strs := []string{"", "a", "az!Z", "!!a!", "hello, World!", "\xff\x00é", "日本語", "a\xf0\x9f\x98\x80b", "\xed\xa0\x80", "\xf4\x90\x80\x80", "\xe2\x82", "é!"}
 	for _, s := range strs {
 		s := s
-		add("g_Upper7 99 "+bl([]byte(s)), func() string { d := exact([]byte(s)); sample.Upper7(d); return bl(d) })
+		add("g_Upper7 99 "+bl([]byte(s)), func() string { d := exact07([]byte(s)); sample.Upper7(d); return bl(d) })
 		for _, w := range []int{-1, 0, 1, 2, 3, 4, 5, 6} {
 			w := w
 			add(fmt.Sprintf("g_EscStr 99 %s %s", bl([]byte(s)), zs(w)), func() string { return bl(sample.EscStr(s, w)) })
@@ -101,7 +101,7 @@ func TestExt07AgainstNativeGo(t *testing.T) {
 			for _, e := range []int{-1, 0, 1, 2, 4, 7, 10, 11} {
 				b0, e := b0, e
 				add(fmt.Sprintf("g_Enc %s %s %s", bl(b0), z64(int64(r)), zs(e)), func() string {
-					d := exact(b0)
+					d := exact07(b0)
 					n := sample.Enc(d, r, e)
 					return "(" + bl(d) + ", " + zs(n) + ")"
 				})
@@ -154,7 +154,7 @@ func TestExt07FailsClosed(t *testing.T) {
 		t.Errorf("Pad without Std: expected a refusal, got %v", err)
 	}
 	// without TransSpec.InPlace a write to a slice parameter is refused as before
-	if _, err := Translate(".", TransSpec{Dir: "internal/sample", Funcs: []string{"Fill"}}); err == nil || !strings.Contains(err.Error(), "unsupported") {
-		t.Errorf("Fill without InPlace: expected a refusal, got %v", err)
+	if _, err := Translate(".", TransSpec{Dir: "internal/sample", Funcs: []string{"Fill7"}}); err == nil || !strings.Contains(err.Error(), "unsupported") {
+		t.Errorf("Fill7 without InPlace: expected a refusal, got %v", err)
 	}
 }
